@@ -94,6 +94,11 @@ def malformations(typ):
     add('unknown-context', lambda b: edit_asb(b, typ, lambda a: a.update(context=99)))
     add('target-absent', lambda b: edit_asb(b, typ, lambda a: a.update(targets=[9])))
     add('extra-target-without-result', lambda b: edit_asb(b, typ, lambda a: a.update(targets=a['targets'] + [3])))
+    # entries of the target list that are no block numbers at all (null, an empty array, a map), each with a result of its own
+    for (tname, tval) in (('null', None), ('empty-array', []), ('map', {})):
+        add('extra-target-%s-with-a-result' % tname,
+            lambda b, tval=tval: edit_asb(b, typ, lambda a: (a.update(targets=a['targets'] + [tval]), a['results'].append(list(a['results'][0])))))
+    add('only-target-null', lambda b: edit_asb(b, typ, lambda a: a.update(targets=[None])))
     add('extra-result-without-target', lambda b: edit_asb(b, typ, lambda a: a['results'].append(list(a['results'][0]))))
     add('duplicate-parameter-ids', lambda b: edit_asb(b, typ, lambda a: (a['params'].append(a['params'][0]), a.update(flags=a['flags'] | 1))))
     add('duplicate-result-ids', lambda b: edit_asb(b, typ, lambda a: a['results'][0].append(a['results'][0][0])))
